@@ -25,9 +25,9 @@ type loaderCfg struct {
 	Personal string  `json:"personal"`
 	Backup   string  `json:"backup"`
 	MaxAtt   int     `json:"maxatt"`
-	BaseUS   int     `json:"base"`   // microseconds
+	BaseUS   int     `json:"base"` // microseconds
 	Factor   float64 `json:"factor"`
-	CapUS    int     `json:"cap"`    // microseconds
+	CapUS    int     `json:"cap"` // microseconds
 	Dir      string  `json:"dir"`
 	Tr       int     `json:"tr"`
 }
@@ -105,7 +105,15 @@ func loaderRun(args []string) int {
 		fatal("%v", err)
 	}
 	defer of.Close()
+	// the unprivileged child must be able to reach the binary: copy it next to the scenarios
 	self, _ := os.Executable()
+	if b, err := os.ReadFile(self); err == nil {
+		cp := filepath.Join(base, "vh-child")
+		if os.WriteFile(cp, b, 0o755) == nil {
+			os.Chmod(cp, 0o755)
+			self = cp
+		}
+	}
 	cmd := exec.Command(self, "loader-child")
 	cmd.SysProcAttr = &syscall.SysProcAttr{Credential: &syscall.Credential{Uid: 65534, Gid: 65534}}
 	cmd.Dir = base
